@@ -62,9 +62,39 @@ func funcKey(fn *ssa.Function) string {
 		return fmt.Sprintf("%s.(%s%s).%s", pkg, star, name, fn.Name())
 	}
 	if fn.Parent() != nil {
-		return funcKey(fn.Parent()) + "$" + fn.Name()
+		// anonymous functions are already named Parent$N by go/ssa
+		return pkgNameOf(fn.Parent()) + "." + fn.Name()
 	}
 	return pkg + "." + fn.Name()
+}
+
+// matchKey matches a function key against a pattern. "(*T)" is a literal pointer receiver,
+// "(*)" any pointer receiver; every other * is a wildcard.
+func matchKey(pat, key string) bool {
+	if pat == key {
+		return true
+	}
+	p := strings.ReplaceAll(pat, "(*).", "(\\x00).")
+	p = strings.ReplaceAll(p, "(*", "(\\*")
+	p = strings.ReplaceAll(p, "(\\x00).", "(\\**).")
+	ok, _ := path.Match(p, key)
+	return ok
+}
+
+func pkgNameOf(fn *ssa.Function) string {
+	for fn.Parent() != nil {
+		fn = fn.Parent()
+	}
+	if o := fn.Origin(); o != nil {
+		fn = o
+	}
+	if fn.Pkg != nil {
+		return fn.Pkg.Pkg.Name()
+	}
+	if fn.Object() != nil && fn.Object().Pkg() != nil {
+		return fn.Object().Pkg().Name()
+	}
+	return ""
 }
 
 func (x *Exec) contractFor(fn *ssa.Function) *Contract {
@@ -73,7 +103,7 @@ func (x *Exec) contractFor(fn *ssa.Function) *Contract {
 		return c
 	}
 	for _, f := range x.cs.Families {
-		if ok, _ := path.Match(f.Family, key); ok {
+		if matchKey(f.Family, key) {
 			return f
 		}
 	}
@@ -197,16 +227,57 @@ func (x *Exec) call(fr *Frame, i *ssa.Call) {
 		x.staticCall(fr, i, x.funcByID[id-1], args, nil)
 		return
 	}
-	// closed world: the value must be one of the module's functions of this signature that
-	// share one contract (e.g. the constructor family registered in operators13)
-	if c, ids, label := x.dynamicTargets(common.Signature()); c != nil {
+	// closed world: the value must be one of the module's functions of this signature that are
+	// under contract; the call is a case split over them
+	if cands := x.dynamicTargets(common.Signature()); len(cands) > 0 {
 		var alts []string
-		for _, id := range ids {
-			alts = append(alts, eq(fv.C[0], id))
+		for _, c := range cands {
+			alts = append(alts, eq(fv.C[0], c.id))
 		}
 		x.oblige(fr, "pre", "dynamic-call-target", x.contractTags(fr), or(alts...), pc,
-			"function value is not one of the functions covered by contract "+label, "")
-		fr.vals[i] = x.applyContract(fr, c, label, x.lastDynSig, args, false)
+			"function value is not one of the module's functions of this signature that are under contract", "")
+		pc0, st0 := fr.curPC, fr.curSt
+		var pcs []string
+		var sts []*State
+		var vals []Val
+		// functions sharing one contract object (a family) are handled by a single application
+		type group struct {
+			c     dynTarget
+			conds []string
+		}
+		var groups []*group
+		for _, c := range cands {
+			var g *group
+			for _, gg := range groups {
+				if gg.c.c == c.c && c.c.Family != "" {
+					g = gg
+				}
+			}
+			if g == nil {
+				g = &group{c: c}
+				if c.c.Family != "" {
+					g.c.label = c.c.Family
+				}
+				groups = append(groups, g)
+			}
+			g.conds = append(g.conds, eq(fv.C[0], c.id))
+		}
+		for _, g := range groups {
+			fr.curPC = and(pc0, or(g.conds...))
+			fr.curSt = st0.clone()
+			v := x.applyContract(fr, g.c.c, g.c.label, g.c.fn.Signature, args, false)
+			pcs = append(pcs, fr.curPC)
+			sts = append(sts, fr.curSt)
+			vals = append(vals, v)
+		}
+		fr.curPC = pc0
+		if len(groups) == 1 {
+			fr.curSt = sts[0]
+			fr.vals[i] = vals[0]
+			return
+		}
+		fr.curSt = x.mergeStates(pcs, sts)
+		fr.vals[i] = x.mergeVals("dyncall", pcs, vals)
 		return
 	}
 	x.unsupportedf(fr, pc, "call through function value %s of type %s without a contract", common.Value.Name(), common.Value.Type())
@@ -781,39 +852,38 @@ func (x *Exec) rangeCopyAxiom(newS, oldS, dst, dLo, n, src, sLo string) {
 		newS, dst, dLo, add(dLo, n), oldS, src, dLo, sLo, oldS, dst, newS, dst)))
 }
 
-// dynamicTargets: module functions with exactly this signature that are under one common contract.
-func (x *Exec) dynamicTargets(sig *types.Signature) (*Contract, []string, string) {
-	var c *Contract
-	var ids []string
-	label := ""
+type dynTarget struct {
+	fn    *ssa.Function
+	c     *Contract
+	id    string
+	label string
+}
+
+// dynamicTargets: module functions (top-level, with bodies) of exactly this signature; all of
+// them must be under contract, otherwise the call cannot be resolved.
+func (x *Exec) dynamicTargets(sig *types.Signature) []dynTarget {
 	var fns []*ssa.Function
 	for fn := range allFunctions(x.prog) {
-		if fn.Blocks == nil || fn.Signature.Recv() != nil || fn.Parent() != nil || !x.inModule(fn) || fn.Synthetic != "" {
+		if fn.Blocks == nil || fn.Signature.Recv() != nil || len(fn.FreeVars) > 0 || !x.inModule(fn) || fn.Synthetic != "" {
 			continue
 		}
-		if !types.Identical(fn.Signature, sig) {
+		if fn.TypeParams().Len() > 0 || len(fn.TypeArgs()) > 0 || !types.Identical(fn.Signature, sig) {
 			continue
 		}
 		fns = append(fns, fn)
 	}
 	sortFuncs(fns)
+	var out []dynTarget
 	for _, fn := range fns {
 		fc := x.contractFor(fn)
 		if fc == nil {
-			return nil, nil, ""
+			// not a possible target as far as the proof is concerned: the dynamic-call-target
+			// obligation fails if the value could be this function
+			continue
 		}
-		if c == nil {
-			c = fc
-			label = funcKey(fn)
-			if fc.Family != "" {
-				label = fc.Family
-			}
-		} else if c != fc {
-			return nil, nil, ""
-		}
-		ids = append(ids, x.funcID(fn))
+		label := funcKey(fn)
+		out = append(out, dynTarget{fn: fn, c: fc, id: x.funcID(fn), label: label})
 		x.noteContractUse(fn, fc)
-		x.lastDynSig = fn.Signature
 	}
-	return c, ids, label
+	return out
 }
